@@ -17,7 +17,8 @@
    changes are frequent. *)
 EXTENDS MCDriver, Json
 
-CONSTANTS MaxSteps, CrashOdds, StopOdds
+CONSTANTS MaxSteps, CrashOdds, StopOdds,
+          CrashAfterCommit   \* long-lived configuration: the first life lasts until its first commit
 
 VARIABLES hist, steps
 mbtvars == <<vars, hist, steps>>
@@ -42,10 +43,12 @@ UsefulInput == Useful # {} /\ \E m \in R(Useful) : Input(InMsg(m))
 AnyInput == \E m \in R(PeerMsgs(sm.h)) : Input(InMsg(m))
 TimeoutInput == tmo # {} /\ \E t \in R(tmo) : Input(InTimeout(t))
 
+MayDie == CrashAfterCommit => commits # <<>>
+
 SimNext ==
   IF mode = "crashed" THEN Recover
-  ELSE IF RandomElement(1..CrashOdds) = 1 /\ ncr < MaxCrashes THEN Crash
-  ELSE IF queue = <<>> /\ mode = "listen" /\ sm.started /\ ncr < MaxCrashes /\ RandomElement(1..StopOdds) = 1 THEN Stop
+  ELSE IF RandomElement(1..CrashOdds) = 1 /\ ncr < MaxCrashes /\ MayDie THEN Crash
+  ELSE IF queue = <<>> /\ mode = "listen" /\ sm.started /\ ncr < MaxCrashes /\ MayDie /\ RandomElement(1..StopOdds) = 1 THEN Stop
   ELSE IF queue # <<>> THEN Effect
   ELSE IF mode = "replay" THEN ReplayNext \/ ReplayDone
   ELSE IF NeedStart THEN Input(InStart)
